@@ -46,6 +46,12 @@ Qed.
 Lemma cs_has_available_spec cs : cs_has_available_charger cs = true <-> 0 < cs_avail cs.
 Proof. unfold cs_has_available_charger. apply Z.ltb_lt. Qed.
 
+(* merging a repeated (station, plug type) row of the stations file: installed and free grow together *)
+Lemma cs_add_chargers_spec cs n : let cs' := cs_add_chargers cs n in
+  cs_total cs' = cs_total cs + n /\ cs_avail cs' = cs_avail cs + n /\ cs_total cs' - cs_avail cs' = cs_total cs - cs_avail cs /\
+  cs_enq cs' = cs_enq cs /\ cs_id cs' = cs_id cs /\ cs_charger cs' = cs_charger cs /\ cs_price cs' = cs_price cs.
+Proof. unfold cs_add_chargers. cbn. repeat split; lia. Qed.
+
 (* the bounds are an invariant of all four operations *)
 Lemma cs_bounds_preserved cs : cs_bounds cs ->
   (forall cs', cs_decrement_available cs = Ok cs' -> cs_bounds cs') /\
